@@ -442,6 +442,119 @@ pub fn check_ffi(case: &Case, st: &mut Stats) -> Check {
     ))
 }
 
+/// Decodes a libFuzzer input of the `open_structured` target into its case
+/// (the fuzzer's bytes drive the proptest strategy through the pass-through RNG).
+pub fn case_from_fuzz_bytes(data: &[u8]) -> Option<Case> {
+    use proptest::strategy::ValueTree;
+    use proptest::test_runner::{Config, RngAlgorithm, TestRng, TestRunner};
+    if data.len() < 8 {
+        return None;
+    }
+    let rng = TestRng::from_seed(RngAlgorithm::PassThrough, data);
+    let mut runner = TestRunner::new_with_rng(Config { failure_persistence: None, ..Config::default() }, rng);
+    case_strategy().new_tree(&mut runner).ok().map(|t| t.current())
+}
+
+/// Thorough tier: one coverage-guided libFuzzer campaign (cargo-fuzz) whose
+/// in-target oracle is the same battery.  Returns violations for artifacts
+/// that reproduce in-process.
+fn fuzz_campaign(ctx: &Ctx, target: &str, runs: u64, st: &mut Stats) -> Vec<crate::engine::Violation> {
+    let dir = ctx.verif_dir.clone();
+    let crate_dir = format!("{dir}/harness/msiverif");
+    let corpus = format!("{dir}/work/fuzz-corpus-{target}");
+    let artifacts = format!("{crate_dir}/fuzz/artifacts/{target}");
+    let _ = std::fs::remove_dir_all(&corpus);
+    let _ = std::fs::remove_dir_all(&artifacts);
+    std::fs::create_dir_all(&corpus).expect("corpus dir");
+    // deterministic seed corpus: valid files from the encoder for the raw
+    // target (the container magic is out of reach from an empty corpus)
+    if target == "open_raw" {
+        use proptest::strategy::ValueTree;
+        use proptest::test_runner::{Config, RngAlgorithm, TestRng, TestRunner};
+        let rng = TestRng::from_seed(RngAlgorithm::ChaCha, &crate::engine::mix_seed(ctx.seed, "fuzz-corpus", 0));
+        let mut runner = TestRunner::new_with_rng(Config { failure_persistence: None, ..Config::default() }, rng);
+        for i in 0..40 {
+            if let Ok(t) = case_strategy().new_tree(&mut runner) {
+                let mut c = t.current();
+                if i % 2 == 0 {
+                    c.corrupt.clear();
+                }
+                if let Ok(bytes) = build(&c) {
+                    let _ = std::fs::write(format!("{corpus}/seed-{i:02}.msi"), bytes);
+                }
+            }
+        }
+    }
+    let build = std::process::Command::new("cargo").args(["+nightly", "fuzz", "build", "-O", target]).current_dir(&crate_dir).env("CARGO_NET_OFFLINE", "true").output();
+    match build {
+        Ok(o) if o.status.success() => {}
+        Ok(o) => {
+            eprintln!("cargo fuzz build failed (inconclusive): {}", String::from_utf8_lossy(&o.stderr).lines().rev().take(5).collect::<Vec<_>>().join(" | "));
+            std::process::exit(2);
+        }
+        Err(e) => {
+            eprintln!("cannot run cargo fuzz (inconclusive): {e}");
+            std::process::exit(2);
+        }
+    }
+    let per_job = runs / 8;
+    let out = std::process::Command::new("cargo")
+        .args(["+nightly", "fuzz", "run", "-O", target, &corpus, "--"])
+        .args([format!("-runs={per_job}"), format!("-seed={}", (ctx.seed % 0xffff_fffe) + 1), "-len_control=0".into(), "-max_len=65536".into(), "-rss_limit_mb=4096".into(), "-malloc_limit_mb=2048".into(), "-timeout=120".into(), "-jobs=8".into(), "-workers=8".into(), "-print_final_stats=1".into()])
+        .current_dir(&crate_dir)
+        .env("CARGO_NET_OFFLINE", "true")
+        .env("RUST_BACKTRACE", "0")
+        .output();
+    let out = match out {
+        Ok(o) => o,
+        Err(e) => {
+            eprintln!("cannot run cargo fuzz (inconclusive): {e}");
+            std::process::exit(2);
+        }
+    };
+    st.evals(per_job * 8);
+    st.class_n(&format!("libfuzzer:{target}:runs"), per_job * 8);
+    let mut viols = Vec::new();
+    let mut arts: Vec<std::path::PathBuf> = std::fs::read_dir(&artifacts).map(|rd| rd.flatten().map(|e| e.path()).collect()).unwrap_or_default();
+    arts.sort();
+    for a in arts {
+        let data = match std::fs::read(&a) {
+            Ok(d) => d,
+            Err(_) => continue,
+        };
+        let name = a.file_name().map(|n| n.to_string_lossy().to_string()).unwrap_or_default();
+        let keep = format!("{dir}/replays/C09-fuzz-{target}-{name}");
+        let _ = std::fs::create_dir_all(format!("{dir}/replays"));
+        let _ = std::fs::write(&keep, &data);
+        let mut scratch = Stats::new();
+        let verdict = if target == "open_raw" {
+            crate::engine::no_panic(P, "fuzz artifact", || check_bytes(&data, &mut scratch)).and_then(|r| r)
+        } else {
+            match case_from_fuzz_bytes(&data) {
+                Some(c) => crate::engine::no_panic(P, "fuzz artifact", || check_case(&c, &mut scratch, false)).and_then(|r| r),
+                None => Ok(()),
+            }
+        };
+        match verdict {
+            Err(f) => {
+                if ctx.is_known(&f.sig) {
+                    st.excluded_known += 1;
+                } else {
+                    let kind = if target == "open_raw" { "file" } else { "fuzzcase" };
+                    viols.push(crate::engine::Violation { sig: f.sig, detail: format!("libFuzzer ({target}) artifact {name}: {}", f.detail), case: json!({"kind": kind, "case": keep}) });
+                }
+            }
+            Ok(()) => {
+                st.notes.push(format!("libFuzzer ({target}) left artifact {name} which does not reproduce in-process (kept as {keep})"));
+            }
+        }
+    }
+    if !out.status.success() && viols.is_empty() {
+        st.notes.push(format!("libFuzzer ({target}) ended with {:?} without a reproducible artifact", out.status));
+    }
+    viols
+}
+
 fn corrupt_strategy() -> impl Strategy<Value = Corrupt> {
     let small = prop::collection::vec(any::<u8>(), 1..5);
     prop_oneof![
@@ -538,6 +651,13 @@ pub fn run(ctx: &Ctx) -> Report {
         check_ffi(c, st)
     }, &mut st);
     rep.push(v);
+    if ctx.tier == crate::engine::Tier::Thorough && std::env::var("VERIF_NO_LIBFUZZER").is_err() {
+        for target in ["open_structured", "open_raw"] {
+            for v in fuzz_campaign(ctx, target, 2_000_000, &mut st) {
+                rep.violations.push(v);
+            }
+        }
+    }
     // clean the per-thread "current case" notes of a run that ended normally
     if let Ok(rd) = std::fs::read_dir(format!("{}/work", ctx.verif_dir)) {
         for e in rd.flatten() {
@@ -585,6 +705,14 @@ pub fn replay(_ctx: &Ctx, doc: &J) -> Check {
         "structured" => check_case(&serde_json::from_value::<Case>(doc["case"].clone()).map_err(bad)?, &mut st, false),
         "raw" => check_raw(&serde_json::from_value::<RawCase>(doc["case"].clone()).map_err(bad)?, &mut st, false),
         "ffi" => check_ffi(&serde_json::from_value::<Case>(doc["case"].clone()).map_err(bad)?, &mut st),
+        "fuzzcase" => {
+            let path = doc["case"].as_str().unwrap_or("");
+            let bytes = std::fs::read(path).map_err(|e| Fail::new(format!("{P} bad-replay"), format!("{path}: {e}")))?;
+            match case_from_fuzz_bytes(&bytes) {
+                Some(c) => check_case(&c, &mut st, false),
+                None => Ok(()),
+            }
+        }
         "file" => {
             // {"kind":"file","case":"<path>"}: a saved input (e.g. a libFuzzer artifact)
             let path = doc["case"].as_str().unwrap_or("");
